@@ -315,7 +315,7 @@ Inductive case :=
 (* Writer over the keys -> Tree().Nodes() (None = error) *)
 | CGen (tbl : list (bstr * bstr)) (keys : list bstr) (res : option (list rnode))
 (* ExtractProofMaterial *)
-| CExtract (nodes : list rnode) (key : bstr) (res : option (list rnode))
+| CExtract (nodes : list rnode) (qs : list (bstr * option (list rnode)))
 (* Proof.IsValid = pvalid; Prove(key) = ok for each (key, ok); after replacing position j by node: Prove(key) = ok *)
 | CProof (tbl : list (bstr * bstr)) (pnodes : list rnode) (pvalid : bool)
          (proves : list (bstr * bool)) (muts : list (N * rnode * bstr * bool)).
@@ -339,8 +339,9 @@ Definition check (c : case) : bool :=
       let g := generate (Htbl m) (map unb keys) in
       option_eqb nodes_eqb g (option_map (map node_of) res)
       && match g with Some t => forallb (in_tbl m) (tree_queries t) | None => true end
-  | CExtract nodes key res =>
-      option_eqb nodes_eqb (extract (map node_of nodes) (unb key)) (option_map (map node_of) res)
+  | CExtract nodes qs =>
+      let t := map node_of nodes in
+      forallb (fun q => option_eqb nodes_eqb (extract t (unb (fst q))) (option_map (map node_of) (snd q))) qs
   | CProof tbl pnodes pvalid proves muts =>
       let m := tbl_of tbl in
       let p := map node_of pnodes in
